@@ -324,7 +324,8 @@ OnRet(m00, e) ==
       mG == Flag(mF, hasx /\ ~pan /\ op = "collect" /\ lim = 0 /\ own = 0 /\ m00.lastbf > 0, "C07", "collect_cycles() did not start a collection although objects are buffered")
       \* ---- panic accounting (C07-b/c)
       mH == Flag(mG, fr.fault /\ ~pan, "C07", "an injected panic was swallowed by " \o op)
-      mI == Flag(mH, fr.fault /\ lim = 0 /\ pan /\ e.panic # "inj", "C07", "an injected panic was replaced by " \o e.panic)
+      \* "tracing": the debug-build refusal of a Weak::clone attempted by a Trace impl (probe event), which surfaces like a fault
+      mI == Flag(mH, fr.fault /\ lim = 0 /\ pan /\ e.panic \notin {"inj", "tracing"}, "C07", "an injected panic was replaced by " \o e.panic)
       \* documented saturation panic: only at the limit, and only from the operations that create a pointer
       StrongMakers == {"clone", "clonef", "set", "upgrade", "upgradef", "clonen"}
       WeakMakers == {"downgrade", "clonew", "setw", "savew", "clonewn"}
